@@ -1,11 +1,11 @@
 """C15 — all return and file modes deliver the same model.
 
 Lean side (lean/J2O/Model/C15.lean, Lemmas/C15.lean, Props/C15.lean): the on-disk state machine
-of `to_onnx(return_mode="file")` — main file, `.onnx.data` sidecar, spill rule, APPEND to an
-existing sidecar with recorded offsets, empty-sidecar cleanup, web-mode sidecar removal, `load`.
+of `to_onnx(return_mode="file")` — main file, `.onnx.data` sidecar, spill rule, removal of a stale sidecar
+before a standard export (fix f6799b2), web-mode sidecar removal, `load`.
 Theorems for every spill rule, every prior disk content and every history of exports to one
-path: `load_export`, `load_history`/`load_last`, `web_self_contained`, `stale_never_referenced`,
-`modes_agree`, `layout_step` (the length-level machine of the driver is the projection of the
+path: `load_export`, `load_history`/`load_last`, `export_history_independent`,
+`sidecar_is_exactly_the_spilled_tensors`, `web_self_contained`, `stale_never_referenced`, `modes_agree`, `layout_step` (the length-level machine of the driver is the projection of the
 byte level), `export_succeeds_partial` + machine-checked refutation of the unconditional form.
 
 Tie (H): seeded histories (standard/web x tensor sizes on both sides of the spill threshold x
@@ -44,12 +44,14 @@ META = {
                  "protobuf/ORT equality oracles across return modes",
     "level_text": "Kernel-checked, for every spill rule, prior disk content and history: load_export / "
                   "load_history / load_last (what onnx.load returns is exactly the last export carried out: graph "
-                  "and every tensor byte for byte), web_self_contained, stale_never_referenced (external "
-                  "references only into the bytes appended by that export; old bytes untouched), modes_agree, "
+                  "and every tensor byte for byte), export_history_independent (what an export leaves on disk depends on the "
+                  "request only: no append, no growth), sidecar_is_exactly_the_spilled_tensors, "
+                  "stale_never_referenced, web_self_contained, modes_agree, "
                   "layout_step (driver machine = projection of the byte-level machine with the installed onnx's "
-                  "rule len+33 >= 1 MiB), export_succeeds_partial and export_always_succeeds_refuted.",
-    "level_note": "The model assumes onnx.save_model/onnx.load behave as described in Model/C15.lean (append at end "
-                  "of an existing sidecar, offsets recorded, external only for raw_data initializers with "
+                  "rule len+33 >= 1 MiB), export_succeeds_partial / export_always_succeeds_refuted / "
+                  "refused_export_drops_sidecar (residual), regression examples about the pre-fix step.",
+    "level_note": "The model assumes onnx.save_model/onnx.load behave as described in Model/C15.lean (a fresh sidecar "
+                  "is written after the stale one was removed, offsets recorded, external only for raw_data initializers with "
                   "sys.getsizeof >= threshold); this is validated on every run by the correspondence, not proved. "
                   "Equality proto == to_proto(ir) and the protective clone are properties of onnx_ir, checked by "
                   "the oracle only. PARTIAL on one point: a standard export is refused (FileExistsError) when a "
@@ -219,6 +221,12 @@ def gen_histories(rng: common.Rng, thorough: bool) -> list[dict]:
                          {"req": "small", "mode": "standard", "seed": 2}, {"req": "big", "mode": "web", "seed": 1},
                          {"req": "big", "mode": "standard", "seed": 2}],
                "side0": None, "relative": True})
+    # a FOREIGN file with the sidecar's name in the current working directory for some steps
+    hs.append({"steps": [{"req": "big", "mode": "standard", "seed": 0},
+                         {"req": "small", "mode": "standard", "seed": 1, "foreign_cwd": True},
+                         {"req": "big", "mode": "web", "seed": 2, "foreign_cwd": True},
+                         {"req": "big", "mode": "standard", "seed": 1}],
+               "side0": None, "relative": False})
     return hs
 
 
@@ -227,6 +235,9 @@ def run_history(chk: Check, reqs: Requests, h: dict, stats: dict) -> tuple[str, 
     import onnx
     from jax2onnx import to_onnx
     d = tempfile.mkdtemp(prefix="c15_")
+    foreign = tempfile.mkdtemp(prefix="c15f_")
+    with open(os.path.join(foreign, "model.onnx.data"), "wb") as fh:
+        fh.write(b"unrelated file that happens to have the sidecar's name")
     cwd = os.getcwd()
     path = os.path.join(d, "model.onnx")
     dp = path + ".data"
@@ -240,10 +251,14 @@ def run_history(chk: Check, reqs: Requests, h: dict, stats: dict) -> tuple[str, 
                 fh.write(bytes((i * 37 + 11) % 251 for i in range(h["side0"])))
         for i, st in enumerate(h["steps"]):
             r = reqs.get(st["req"], st["seed"])
-            before_side = os.path.getsize(dp) if os.path.exists(dp) else 0
+            if not h["relative"]:
+                os.chdir(foreign if st.get("foreign_cwd") else cwd)
             before_obs = observe(path)
-            # what onnx checks: a file named like the sidecar relative to the CURRENT WORKING DIRECTORY
-            clash = st["mode"] == "standard" and os.path.exists(os.path.basename(dp))
+            # what onnx checks: a file named like the sidecar relative to the CURRENT WORKING DIRECTORY;
+            # the destination's own sidecar is removed first, so only a foreign file can be in the way
+            here = os.path.abspath(os.path.basename(dp))
+            clash = (st["mode"] == "standard" and os.path.exists(here)
+                     and os.path.realpath(here) != os.path.realpath(dp))
             ok, err = True, None
             try:
                 ret = to_onnx(r["fn"], [r["x"]], return_mode="file", output_path=out_path,
@@ -262,12 +277,15 @@ def run_history(chk: Check, reqs: Requests, h: dict, stats: dict) -> tuple[str, 
             if not ok:
                 stats["refused"] += 1
                 chk.finding({"kind": "export_refused", "error": err.split(":")[0], "mode": st["mode"],
-                             "relative_path": h["relative"], "sidecar_name_in_cwd": bool(clash)},
+                             "relative_path": h["relative"], "sidecar_name_in_cwd": bool(clash),
+                             "foreign_file_in_cwd": bool(st.get("foreign_cwd"))},
                             f"to_onnx(return_mode='file', export_mode={st['mode']!r}) raised {err} at step {i} "
                             f"of a history of exports to one path", replay)
                 if obs != before_obs:
-                    chk.finding({"kind": "refused_export_changed_disk"},
-                                "a refused export changed the files on disk", replay)
+                    chk.finding({"kind": "refused_export_changed_disk", "error": err.split(":")[0],
+                                 "foreign_file_in_cwd": bool(st.get("foreign_cwd"))},
+                                f"a refused export changed the files on disk ({show(before_obs, True)} -> "
+                                f"{show(obs, False)})", replay)
                 continue
             if os.path.abspath(str(ret)) != os.path.abspath(out_path):
                 chk.finding({"kind": "wrong_return_value"}, f"file mode returned {ret!r}", replay)
@@ -288,15 +306,21 @@ def run_history(chk: Check, reqs: Requests, h: dict, stats: dict) -> tuple[str, 
                             f"onnx.load of the {st['mode']} file differs from return_mode='proto' ({which}) "
                             f"at step {i}", replay)
                 stats["oracle_failures"] += 1
-            # ---- oracle: every external reference lies in what this export appended
+            # ---- oracle: the sidecar holds exactly the tensors this export spilled, nothing stale
+            ext_total = 0
             for e in obs["main"] or []:
                 if ":e" in e:
                     off, ln = (int(v) for v in e.split(":e")[1].split("+"))
-                    if off < before_side or off + ln > (obs["side"] or 0):
-                        chk.finding({"kind": "stale_bytes_referenced"},
-                                    f"external reference {e} reaches outside the bytes appended by this export "
-                                    f"(sidecar was {before_side} bytes before, {obs['side']} after)", replay)
+                    ext_total += ln
+                    if off + ln > (obs["side"] or 0):
+                        chk.finding({"kind": "reference_outside_sidecar"},
+                                    f"external reference {e} reaches outside the sidecar ({obs['side']} bytes)", replay)
                         stats["oracle_failures"] += 1
+            if (obs["side"] or 0) != ext_total:
+                chk.finding({"kind": "stale_bytes_in_sidecar", "mode": st["mode"]},
+                            f"the sidecar has {obs['side']} bytes but the model references {ext_total}: bytes of "
+                            f"an earlier export were kept", replay)
+                stats["oracle_failures"] += 1
             # ---- oracle: ORT on the file == ORT on the proto == JAX
             if r["ort"] is None:
                 r["ort"] = ort_run(r["proto"].SerializeToString(), r["x"])
@@ -326,6 +350,7 @@ def run_history(chk: Check, reqs: Requests, h: dict, stats: dict) -> tuple[str, 
     finally:
         os.chdir(cwd)
         shutil.rmtree(d, ignore_errors=True)
+        shutil.rmtree(foreign, ignore_errors=True)
     line = json.dumps({"op": "hist", "side0": h["side0"], "steps": dsteps})
     return " | ".join(records), line
 
